@@ -12,7 +12,7 @@ CLAIMS = {
          'DESIGN.md §7 C05'),
  'C10': ('proof over regenerated fact tables + differential re-execution', 'Lean 4: the regenerated table of nondeterminism-prone constructs (map ranges, time.Now, rand, go/select, floats) over all consensus-critical sources equals a justified list (decide); begin/end-blocker order facts; the model is a pure function of genesis and history. Runtime half is differential only: the same history re-executed in fresh processes with GOMAXPROCS 1/4/16, outputs incl. app hash compared byte for byte',
          'DESIGN.md §7 C10'),
- 'C19': ('proof + regenerated descriptors + differential probe', 'Lean 4 protobuf wire model with binary_roundtrip for every well-formed descriptor, instantiated to all 264 message descriptors regenerated from proto/sentinel/**; JSON half: tree-level model of jsonpb/ProtoCodec JSON (Hub/SDK/ProtoJson) with json_roundtrip_iff - the JSON round trip succeeds iff no enum leaf fails to parse back and the strings are UTF-8; for the hub iff no Status field occurs (status_never over the regenerated tables: known finding F7), the 185 descriptors without enums round-trip for every value; probe19 compares model bytes, the model's JSON tree and its predicted JSON outcome with the real ProtoCodec on type-directed values of every registered type, and mutated bytes through decode',
+ 'C19': ('proof + regenerated descriptors + differential probe', 'Lean 4 protobuf wire model with binary_roundtrip for every well-formed descriptor, instantiated to all 264 message descriptors regenerated from proto/sentinel/**; JSON half: tree-level model of jsonpb/ProtoCodec JSON (Hub/SDK/ProtoJson) with json_roundtrip_iff - the JSON round trip succeeds iff no enum leaf fails to parse back and the strings are UTF-8; for the hub iff no Status field occurs (status_never over the regenerated tables: known finding F7), the 185 descriptors without enums round-trip for every value; probe19 compares model bytes, the model JSON tree and its predicted JSON outcome with the real ProtoCodec on type-directed values of every registered type, and mutated bytes through decode',
          'DESIGN.md §7 C19'),
  'C11': ('proof + correspondence', 'Lean 4 invariant proof over all histories: every node price within the governance bounds whose modified flag is clear, full bounds after every end-of-block (sweep clamps under min<=max), registrations/updates/purchases outside the bounds rejected; model tied to the code by lock-step differential execution incl. governance parameter changes',
          'DESIGN.md §7 C11'),
